@@ -32,6 +32,7 @@ def run(rep, tier):
     densify_containers(rep, F)
     from . import c07
     c07.point_kernel(rep, F, rule="R15.5")
+    arc_length_laws(rep, F)
 
 
 def table(F, fn, loop_bound=1):
@@ -212,3 +213,130 @@ def densify_containers(rep, F):
             rep.bad("R15.4", ty.split("::")[-1], "%s::densify gives %s; not every part is densified (with the same metric and bound, in order) on every path: a part that is skipped keeps segments "
                     "longer than the bound" % (ty.split("::")[-1], [r_[:160] for r_ in rets][:2]), where=fn.loc())
     rep.floor("R15.4", "container impls", n, 5)
+
+
+def arc_length_laws(rep, F):
+    """R15.6: the interpolation entry points of Line and LineString (2 and 3 coordinates, exact unrolling) evaluated on witnesses through their
+    extracted path tables, with the metric space's segment primitives answered by their Euclidean meaning (length = hypot, point_at_distance_between
+    = start + (end - start) * d / |end - start|, point_at_ratio_between = start + (end - start) * r):
+      point_at_ratio_from_start(r) is the point at arc length clamp(r) * length from the start;
+      point_at_ratio_from_end(1 - r), point_at_distance_from_start(r * length) and point_at_distance_from_end((1 - r) * length) coincide with it."""
+    import itertools
+    import math
+    from ..numeval import NumEval
+    from ..evalterm import NoModel, Enum
+    rep.rule("R15.6", "Line and LineString (3 coordinates, repeated vertices included) on witnesses, through the extracted path tables: point_at_ratio_from_start(r) is the point at arc length clamp(r)*length; the from_end form at 1-r and both distance forms coincide with it (r in {-0.5, 0, 0.25, 0.5, 0.9, 1, 1.5})")
+    IL = "geo::algorithm::line_measures::interpolate_line::InterpolatableLine"
+    GT = "geo_types::geometry::"
+    base = [(0.0, 0.0), (3.0, 4.0), (3.0, 0.0), (6.0, 8.0)]
+    ratios = (-0.5, 0.0, 0.25, 0.5, 0.9, 1.0, 1.5)
+
+    def vec(items):
+        return ("call", "vec!", (("array", tuple(items)),))
+
+    def xy(v):
+        if isinstance(v, Enum):
+            if v.variant != "Some":
+                return None
+            v = v.payload[0]
+        if isinstance(v, dict) and "0" in v:
+            v = v["0"]
+        return (float(v["x"]), float(v["y"]))
+
+    def ref_point(cs, r):
+        segs = [(cs[i], cs[i + 1]) for i in range(len(cs) - 1)]
+        lens = [math.hypot(b[0] - a[0], b[1] - a[1]) for a, b in segs]
+        L = sum(lens)
+        r = min(1.0, max(0.0, r))
+        if L == 0:
+            return cs[0]
+        s = r * L
+        for (a, b), l in zip(segs, lens):
+            if l == 0:
+                continue
+            if s <= l + 1e-12:
+                t = s / l
+                return (a[0] + (b[0] - a[0]) * t, a[1] + (b[1] - a[1]) * t)
+            s -= l
+        return cs[-1]
+
+    class Ev(NumEval):
+        def call(self, t):
+            m = t[1].rsplit("::", 1)[-1]
+            a = t[2]
+
+            def pt(v):
+                v = self.ev(v)
+                if isinstance(v, dict) and "0" in v and isinstance(v["0"], dict):
+                    v = v["0"]
+                return (float(v["x"]), float(v["y"]))
+            if m == "length" and len(a) == 2:
+                g = self.ev(a[1])
+                if isinstance(g, dict) and "start" in g:
+                    return math.hypot(g["end"]["x"] - g["start"]["x"], g["end"]["y"] - g["start"]["y"])
+                cs = g["0"] if isinstance(g, dict) else g
+                return sum(math.hypot(cs[i + 1]["x"] - cs[i]["x"], cs[i + 1]["y"] - cs[i]["y"]) for i in range(len(cs) - 1))
+            if m == "distance" and len(a) == 3:
+                p, q = pt(a[1]), pt(a[2])
+                return math.hypot(q[0] - p[0], q[1] - p[1])
+            if m == "point_at_distance_between" and len(a) == 4:
+                p, q, d = pt(a[1]), pt(a[2]), float(self.ev(a[3]))
+                l = math.hypot(q[0] - p[0], q[1] - p[1])
+                f = d / l if l != 0 else float("nan")
+                return {"0": {"x": p[0] + (q[0] - p[0]) * f, "y": p[1] + (q[1] - p[1]) * f}}
+            if m == "point_at_ratio_between" and len(a) == 4:
+                p, q, r = pt(a[1]), pt(a[2]), float(self.ev(a[3]))
+                return {"0": {"x": p[0] + (q[0] - p[0]) * r, "y": p[1] + (q[1] - p[1]) * r}}
+            return NumEval.call(self, t)
+    n_ok = 0
+    for ty, n in (("line::Line", 2), ("line_string::LineString", 3)):
+        name = ty.split("::")[-1]
+        if n == 2:
+            arg = ("adt", GT + ty, name, (("opaque", "c0"), ("opaque", "c1")))
+        else:
+            arg = ("adt", GT + ty, name, (vec([("opaque", "c%d" % i) for i in range(n)]),))
+        tabs = {}
+        try:
+            im = [i for i in F.impls_of(IL) if i["self_ty"].startswith(GT + ty)][0]
+            for meth in ("point_at_ratio_from_start", "point_at_ratio_from_end", "point_at_distance_from_start", "point_at_distance_from_end"):
+                fn = F.impl_fn(im, meth)
+                ex = Symex(F, concrete_iters=True, loop_bound=8, inline_crates=("geo", "geo_types"), max_depth=12)
+                tabs[meth] = (fn, [p for p in ex.run(fn, args=[("&", arg), ("&", ("opaque", "ms")), ("opaque", "v")]) if p.kind != "cut"])
+        except (KeyError, IndexError, Unanalysable) as e:
+            rep.bad("R15.6", "arc:%s:unanalysable" % name, str(e))
+            continue
+        bad = None
+        k = 0
+        for cs in itertools.product(base, repeat=n):
+            L = sum(math.hypot(cs[i + 1][0] - cs[i][0], cs[i + 1][1] - cs[i][1]) for i in range(n - 1))
+            for r in ratios:
+                want = ref_point(cs, r)
+                for meth, val in (("point_at_ratio_from_start", r), ("point_at_ratio_from_end", 1.0 - r), ("point_at_distance_from_start", r * L), ("point_at_distance_from_end", (1.0 - r) * L)):
+                    fn, paths = tabs[meth]
+                    env = {("opaque", "c%d" % i): {"x": cs[i][0], "y": cs[i][1]} for i in range(n)}
+                    env[("opaque", "v")] = val
+                    env[("opaque", "ms")] = "euclidean"
+                    ev = Ev(F, env)
+                    try:
+                        hit = ev.select_path(paths)
+                        if len(hit) != 1 or hit[0].kind != "ret":
+                            bad = "%s(%s, %s) selects %s" % (meth, list(cs), val, [h.kind for h in hit])
+                            break
+                        got = xy(ev.ev(hit[0].ret))
+                    except (NoModel, TypeError, KeyError, ValueError) as e:
+                        bad = "%s cannot be evaluated on %s: %s" % (meth, list(cs), e)
+                        break
+                    k += 1
+                    if got is None or not (abs(got[0] - want[0]) <= 1e-9 and abs(got[1] - want[1]) <= 1e-9):
+                        bad = "%s(%s, %.6g) = %s; the point at arc length %.6g of %.6g from the start is (%.6g, %.6g)" % (meth, list(cs), val, got, min(1, max(0, r)) * L, L, want[0], want[1])
+                        break
+                if bad:
+                    break
+            if bad:
+                break
+        if bad:
+            rep.bad("R15.6", "arc:%s" % name, "%s: %s" % (name, bad), where=tabs["point_at_ratio_from_start"][0].loc())
+        else:
+            n_ok += 1
+            rep.ok("R15.6", "arc:%s[%d evaluations]" % (name, k))
+    rep.floor("R15.6", "interpolatable line types", n_ok, 2)
